@@ -35,6 +35,18 @@ CLAIMED = {
   text="Randomised search over histories of <=60 actions per pool (quick ~53k, thorough ~1.17M histories) over a small universe built to collide: 3 epochs x 2 slots x 2 committees of 3-9 members, 3 competing data per committee, duplicates/subsets/supersets/overlaps/conflicts/length mismatches, every Search filter combination, prunes around the inclusion boundary, sync-pool resets of every kind incl. the uint64 ends and use before the first Reset. The full unfiltered query (for the sync pool: the six buffers) is judged after every action, so a wrong intermediate state cannot hide. 25 seeded mutants are each caught in the quick tier; six genuine defects were found and repaired. Histories are sampled, not exhausted.",
   note="Trusted: the ~500-line poolmodel and the doc readings written in it (where a comment is ambiguous the reading under which the code is right on two-step histories; acceptance is demanded only where no documented refusal reason applies). Signatures are tagged byte strings (pools do not verify or aggregate). The sync-committee pool has no query, so its contents are read from its unexported fields by name via reflect+unsafe (read-only; no file added to /repo; a renamed field is a harness failure, not a verdict). Single-threaded: locking is C17.",
   ref="§3 C20"),
+ "C13": dict(
+  technique="property-based differential testing (rapid): generated ordered deposit lists with real BLS signatures and proofs from the harness's own incremental deposit tree, GenesisFromEth1 / KickStartState / IsValidGenesisState against the from-spec reference; returned context against NewEpochsContext",
+  level="exploration",
+  text="Deposit lists of 0..140 entries mixing valid deposits, bad proof-of-possession, undecodable and infinity pubkeys, top-ups with good and junk signatures, repeats of skipped keys and a skipped key that later deposits validly, amounts below/at/above MAX_EFFECTIVE_BALANCE and off-increment, corrupted Merkle proofs, under mainnet, minimal and custom presets; the produced state must equal refspec.initialize_beacon_state_from_eth1 byte for byte (or both must refuse), the validity predicate is probed with MIN_GENESIS_* drawn at distance <=2 of the produced values. Lists are sampled.",
+  note="Trusted base: refspec/refssz and the BLS library. Lists yielding fewer than SLOTS_PER_EPOCH validators or no active validator must produce the documented error (not a state, not a panic). KickStartState is judged on decodable keys only (its input is 'minimal validator data'; the library skips undecodable keys even in its no-verification mode and nothing documents otherwise).",
+  ref="§3 C13"),
+ "C16": dict(
+  technique="model-based stateful property testing (rapid): generated histories (<=40 actions) over a forest of PubkeyCache handles compared after every action, by a full sweep of every live handle over all indices and all keys, against a model in which a handle is a sequence of distinct keys; calls panic-recovered and watchdog-bounded with a confirming re-run; directed class tour first",
+  level="exploration",
+  text="No violation in ~45k (quick) / ~650k (thorough) generated histories per seed after repair, with fork depth up to 8, conflicts in the root, inherited, fork-point and own part of handles, shared handles with a chain behind the tip, and the deposit protocol of phase0/deposit.go driven on top. The check found the unbounded parent lookup (wrong validator credited, non-terminating AddValidator) from scratch and catches 12 textual mutants including depth-2-only ones. Histories are sampled; alphabet of 8 real keys.",
+  note="Trusted: the 60-line sequence model (pkmodel.go). Assumed: the callers' precondition (a key at an earlier index of the same history is a top-up and never reaches AddValidator); pointer identity is the meaning of 'same cache'/'new cache' in AddValidator's doc; one goroutine per case (concurrency is C17). Watchdogs: 10 s for microsecond calls, confirmed by re-execution.",
+  ref="§3 C16"),
 }
 PENDING_REASON = "check not built yet in this session (designed in DESIGN.md §3; will be claimed when its machinery is committed)"
 
